@@ -8,7 +8,7 @@ property count.  Direct monitor of the property on the same kind of runs (harnes
 from .. import refine, runs
 
 MODULE = 'PyhmsVerif.Props.C03Budget'
-THEOREMS = ['C03.C03_run', 'C03.step_count', 'C03.gen_count', 'C03.local_count', 'C03.create_count', 'C03.budget_hard', 'C16.cutoff_hard', 'C16.head_law', 'C03.C03_budget_run', 'C03.minimize_budget', 'C03.step_budget', 'C16.C16_cutoff_hard_run', 'EngineDE.deGen_requests', 'EngineSEA.seaOffspring_requests']
+THEOREMS = ['C03.C03_run', 'C03.step_count', 'C03.gen_count', 'C03.local_count', 'C03.create_count', 'C03.budget_hard', 'C16.cutoff_hard', 'C16.head_law', 'C03.C03_budget_run', 'C03.minimize_budget', 'C03.step_budget', 'C16.C16_cutoff_hard_run', 'EngineDE.deGen_requests', 'EngineSEA.seaOffspring_requests', 'EngineDE.shadeGen_requests_carry']
 EXTRA_MODULES = ['PyhmsVerif.Props.EngineDE', 'PyhmsVerif.Props.EngineSEA']
 LEVEL = 'proof'
 LEVEL_TEXT = 'Theorem (inductive invariant, every reachable state, all configurations and event sequences): while no cutoff wrapper has refused a request, per level the sum of the demes counters equals the number of objective invocations of that level; hard budget for any wrapper stack and call sequence (C16.cutoff_hard). Tie: trace refinement (the model computes every counter and every evaluation-limit verdict itself; dumps carry per-deme counters, totals and invocation counts) + direct monitor at every GSC consult + minimize() budget sweep. NEW (run level, minimize): C03_budget_run / minimize_budget — for every configuration whose levels all evaluate through one wrapper stack that is the single layer cutoff N (the tree minimize(maxfun=N) builds: checked on every run by capturing the TreeConfig that minimize hands to DemeTree), in every reachable state the wrapper counter (reported as nfev) equals the number of objective invocations made so far and never exceeds N: the budget is hard for whole runs and nfev is exact. C16_cutoff_hard_run: an evaluation-cutoff wrapper anywhere in a stack is hard for whole runs of any configuration. ENGINE LEVEL (Model/Engine.lean, Props/EngineDE.lean): one whole generation of DE.run / SHADE.run is in the model, deterministic given the generator draws (donor arithmetic in binary64, reflect repair, crossover mask incl. the row-zeroing quirk, fitness carry-over, which rows are evaluated, replacement), and is diffed bit-exactly against the real engines with recorded draws: deGen_requests — in one DE generation the objective is invoked exactly once per trial row that differs from its parent row, in row order. SEA FAMILY (Engine.seaOffspring, Props/EngineSEA.lean): one pass of the variational pipeline (tournament = first best contestant, arithmetic crossover in binary64, Gaussian mutation with toroidal repair or uniform mutation, loss of fitness on changed rows, evaluation in row order) is in the model and diffed bit-exactly against BaseSEA.run with recorded draws: seaOffspring_requests — the objective is invoked once per row that lost its fitness, in row order.'
